@@ -148,6 +148,6 @@ Proof.
 Qed.
 Lemma item_no_leftover_on_success mine : snd (item_verify mine) = true -> forallb negb (item_leftover mine) = true.
 Proof.
-  intros H. unfold item_leftover. rewrite (item_verify_ok mine H).
+  intros H. unfold item_leftover. rewrite (item_verify_ok mine H). clear H.
   induction mine as [|[|] r IH]; cbn; auto.
 Qed.
